@@ -33,6 +33,9 @@ pub struct StreamCase {
     /// for c16: extra calls after the stream: sizes of additional writes
     #[serde(default)]
     pub extra_writes: Vec<usize>,
+    /// [k, kind]: the sink's k-th write call fails once (kind 0: ErrorKind::Other, 1: WouldBlock); later calls succeed
+    #[serde(default)]
+    pub sink_fail: Vec<usize>,
 }
 
 const BIG: u64 = 1 << 30;
@@ -162,6 +165,11 @@ pub fn run_traced(c: &StreamCase, full_out: Option<&[u8]>, size_done: bool) -> T
     let data = unhex(&c.data_hex);
     let o = api::options(c.opt, c.memlimit.map(|m| m as usize), c.allow_incomplete);
     let sink = SharedSink::new();
+    if c.sink_fail.len() == 2 {
+        let mut fs = sink.0.borrow_mut();
+        fs.fail_write_at = c.sink_fail[0];
+        fs.fail_wouldblock = c.sink_fail[1] == 1;
+    }
     let sink2 = sink.clone();
     let mut events = vec![];
     let mut problems = vec![];
@@ -191,6 +199,10 @@ pub fn run_traced(c: &StreamCase, full_out: Option<&[u8]>, size_done: bool) -> T
                     let before = sink.len();
                     let _ = s.flush();
                     events.push(json!({"ev": "Flush", "before": before, "after": sink.len()}));
+                    // what the driver's own flush() call delivers is not delivered by a later WRITE
+                    if latched {
+                        sink_at_latch = sink.len();
+                    }
                     // (whether flush() hands pending output to the sink is not fixed by any listed property: the trace
                     // specification sees it - Trace_Stream!TFlush - and reports DRIFT)
                 }
@@ -382,8 +394,9 @@ pub fn check_case(c: &StreamCase, prop: &str, rep: &mut Report, trace: &mut Opti
             let mut c05vs: Vec<String> = vec![];
             std::mem::swap(&mut c05vs, &mut vs);
             let own = c05vs;
-            if one.verdict == Verdict::Panic {
-                // one-shot panics are C07's business; nothing to compare against
+            if one.verdict == Verdict::Panic || !c.sink_fail.is_empty() {
+                // one-shot panics are C07's business; nothing to compare against (nor when the sink of this run is
+                // scripted to fail: the one-shot run had a healthy one)
             } else if data.is_empty() {
                 if t.verdict != Verdict::Ok || !t.out.is_empty() {
                     vs.push("zero input must finish successfully with empty output".into());
@@ -496,6 +509,7 @@ pub fn check_prefixes_at(full: &[u8], opt: Opt, prop: &str, rng: &mut StdRng, np
             origin: "prefix".into(),
             mode: "c15".into(),
             extra_writes: vec![],
+            sink_fail: vec![],
         };
         let t = run_traced(&c, Some(&e.out), false);
         let mut vs: Vec<String> = t.problems.clone();
@@ -923,7 +937,7 @@ pub fn tiny_streams(prop: &str, mode: &str, rep: &mut Report) {
                 }
             }
             for cuts in cutsets {
-                let c = StreamCase { data_hex: dh.clone(), opt, memlimit: None, allow_incomplete: false, cuts, origin: format!("tiny#{}style{}", pi, style), mode: mode.into(), extra_writes: vec![] };
+                let c = StreamCase { data_hex: dh.clone(), opt, memlimit: None, allow_incomplete: false, cuts, origin: format!("tiny#{}style{}", pi, style), mode: mode.into(), extra_writes: vec![], sink_fail: vec![] };
                 check_against_oneshot(&c, &data, &one, prop, rep);
             }
         }
@@ -968,7 +982,7 @@ pub fn run_c05(prop: &str, seed: u64, nstreams: usize, nsyms: usize, trace_path:
             cutsets.push(c);
         }
         for cuts in cutsets {
-            let c = StreamCase { data_hex: dh.clone(), opt: Opt::ReadFromHeader, memlimit: None, allow_incomplete: false, cuts, origin: "window-wrap-stream".into(), mode: "c05".into(), extra_writes: vec![] };
+            let c = StreamCase { data_hex: dh.clone(), opt: Opt::ReadFromHeader, memlimit: None, allow_incomplete: false, cuts, origin: "window-wrap-stream".into(), mode: "c05".into(), extra_writes: vec![], sink_fail: vec![] };
             check_against_oneshot(&c, &data, &one, prop, rep);
         }
     }
@@ -985,7 +999,7 @@ pub fn run_c05(prop: &str, seed: u64, nstreams: usize, nsyms: usize, trace_path:
             for k in [0usize, 1, 2, 5, 19, 20] {
                 let mut cuts = vec![start.saturating_sub(3), start + a, (start + a + k).min(n)];
                 cuts.sort();
-                let c = StreamCase { data_hex: dh.clone(), opt: g.opt, memlimit: None, allow_incomplete: false, cuts, origin: g.origin.clone(), mode: "c05".into(), extra_writes: vec![] };
+                let c = StreamCase { data_hex: dh.clone(), opt: g.opt, memlimit: None, allow_incomplete: false, cuts, origin: g.origin.clone(), mode: "c05".into(), extra_writes: vec![], sink_fail: vec![] };
                 check_against_oneshot(&c, &g.data, &one, prop, rep);
             }
         }
@@ -1005,7 +1019,7 @@ pub fn run_c05(prop: &str, seed: u64, nstreams: usize, nsyms: usize, trace_path:
             for k in [0usize, 1, 3, 19, 20, 21] {
                 let mut cuts = vec![start.saturating_sub(2), start + a, (start + a + k).min(n)];
                 cuts.sort();
-                let c = StreamCase { data_hex: dh.clone(), opt: g.opt, memlimit: None, allow_incomplete: false, cuts, origin: g.origin.clone(), mode: "c05".into(), extra_writes: vec![] };
+                let c = StreamCase { data_hex: dh.clone(), opt: g.opt, memlimit: None, allow_incomplete: false, cuts, origin: g.origin.clone(), mode: "c05".into(), extra_writes: vec![], sink_fail: vec![] };
                 check_against_oneshot(&c, &g.data, &one, prop, rep);
             }
         }
@@ -1039,6 +1053,7 @@ pub fn run_c05(prop: &str, seed: u64, nstreams: usize, nsyms: usize, trace_path:
                     origin: format!("{}/{}/memlimit={:?}", g.origin, mname, ml),
                     mode: "c05".into(),
                     extra_writes: vec![],
+            sink_fail: vec![],
                 };
                 // only trace moderately sized runs (TLC speed)
                 let mut tr = if data.len() < 3000 { trace.take() } else { None };
@@ -1189,7 +1204,7 @@ pub fn early_errors(prop: &str, mode: &str, seed: u64, rep: &mut Report, trace: 
             for first in [1usize, 3, hl - 1, hl, hl + 1, hl + 3, 17, 18, 19] {
                 for second in [1usize, 2, 8, 40] {
                     let cuts = vec![first.min(data.len()), (first + second).min(data.len()), (first + second + 3).min(data.len())];
-                    let c = StreamCase { data_hex: hex(&data), opt, memlimit: None, allow_incomplete: false, cuts, origin: format!("early-error#{}", pi), mode: mode.into(), extra_writes: vec![] };
+                    let c = StreamCase { data_hex: hex(&data), opt, memlimit: None, allow_incomplete: false, cuts, origin: format!("early-error#{}", pi), mode: mode.into(), extra_writes: vec![], sink_fail: vec![] };
                     check_case(&c, prop, rep, trace);
                 }
             }
@@ -1221,6 +1236,7 @@ pub fn run_c16(prop: &str, seed: u64, nstreams: usize, nsyms: usize, trace_path:
                 origin: format!("{}/{}", g.origin, mname),
                 mode: "c16".into(),
                 extra_writes: extra,
+                sink_fail: vec![],
             };
             let mut none = None;
             let ok = check_case(&c, prop, rep, if data.len() < 2000 { &mut trace } else { &mut none });
@@ -1269,7 +1285,7 @@ pub fn run_c16(prop: &str, seed: u64, nstreams: usize, nsyms: usize, trace_path:
         data.extend_from_slice(&enc.payload);
         let gg = GenStream { data: data.clone(), opt, origin: String::new(), bounds: vec![] };
         let cuts = gen_cuts(&mut rng, &gg, i);
-        let c = StreamCase { data_hex: hex(&data), opt, memlimit: None, allow_incomplete: i % 2 == 0, cuts, origin: format!("size-inside-copy/{}of{}", sz - before, n), mode: "c16".into(), extra_writes: vec![] };
+        let c = StreamCase { data_hex: hex(&data), opt, memlimit: None, allow_incomplete: i % 2 == 0, cuts, origin: format!("size-inside-copy/{}of{}", sz - before, n), mode: "c16".into(), extra_writes: vec![], sink_fail: vec![] };
         let mut none = None;
         check_case(&c, prop, rep, &mut none);
     }
@@ -1303,9 +1319,45 @@ pub fn run_c16(prop: &str, seed: u64, nstreams: usize, nsyms: usize, trace_path:
         let gg = GenStream { data: data.clone(), opt, origin: String::new(), bounds: vec![] };
         for cuts in [gen_cuts(&mut rng, &gg, i), vec![hl + 5], vec![hl, hl + 5, hl + 6], (1..data.len()).collect::<Vec<usize>>()] {
             let cuts: Vec<usize> = cuts.into_iter().filter(|c| *c <= data.len()).collect();
-            let c = StreamCase { data_hex: hex(&data), opt, memlimit: None, allow_incomplete: i % 4 == 3, cuts, origin: format!("size-{}-then-more-symbols", sz), mode: "c16".into(), extra_writes: vec![] };
+            let c = StreamCase { data_hex: hex(&data), opt, memlimit: None, allow_incomplete: i % 4 == 3, cuts, origin: format!("size-{}-then-more-symbols", sz), mode: "c16".into(), extra_writes: vec![], sink_fail: vec![] };
             let mut none = None;
             check_case(&c, prop, rep, &mut none);
+        }
+    }
+    // a write that fails because the SINK failed (the hand-over of a full window: its k-th write call returns an error
+    // once, of kind Other or WouldBlock, and works again afterwards) is "a write that has returned an error" like any
+    // other: the caller goes on writing in small pieces, nothing more may be consumed or delivered, finish fails
+    for which in 0..2usize {
+        let props = Props { lc: 3, lp: 0, pb: 2 };
+        let mut prog: Vec<Sym> = vec![];
+        let mut total = 0usize;
+        let mut k = 0u32;
+        while total < 13500 {
+            if which == 1 && k % 9 == 8 {
+                prog.push(Sym::Match { d: 3, n: 2 + (k % 5) });
+                total += 2 + (k % 5) as usize;
+            } else {
+                prog.push(Sym::Lit { b: 0x61 + ((k * 7 + k / 13) % 90) as u8 });
+                total += 1;
+            }
+            k += 1;
+        }
+        prog.push(Sym::Eos);
+        let enc = coding::encode_program(&prog, props);
+        let mut data = lzma_header(props, 4096, Some(u64::MAX));
+        data.extend_from_slice(&enc.payload);
+        for failk in 1..=3usize {
+            for kind in 0..2usize {
+                for step in [1usize, 3, 7, 64, 1500] {
+                    if (failk + kind + step + which) % 2 == 1 && step != 3 {
+                        continue;
+                    }
+                    let cuts: Vec<usize> = (1..data.len()).filter(|x| x % step == 0).collect();
+                    let c = StreamCase { data_hex: hex(&data), opt: Opt::ReadFromHeader, memlimit: None, allow_incomplete: false, cuts, origin: format!("sink-write#{}-fails-once-kind{}", failk, kind), mode: "c16".into(), extra_writes: vec![], sink_fail: vec![failk, kind] };
+                    let mut none = None;
+                    check_case(&c, prop, rep, &mut none);
+                }
+            }
         }
     }
     // output of several window lengths with a 4 KiB dictionary ("no sequence of calls panics" includes the calls
@@ -1338,7 +1390,7 @@ pub fn run_c16(prop: &str, seed: u64, nstreams: usize, nsyms: usize, trace_path:
             if cuts.len() > 400 {
                 continue;
             }
-            let c = StreamCase { data_hex: hex(&data), opt: Opt::ReadFromHeader, memlimit: None, allow_incomplete: false, cuts, origin: "window-wrap-stream".into(), mode: "c16".into(), extra_writes: vec![] };
+            let c = StreamCase { data_hex: hex(&data), opt: Opt::ReadFromHeader, memlimit: None, allow_incomplete: false, cuts, origin: "window-wrap-stream".into(), mode: "c16".into(), extra_writes: vec![], sink_fail: vec![] };
             let mut none = None;
             check_case(&c, prop, rep, &mut none);
         }
